@@ -45,18 +45,19 @@ def confirm(wt, i, sid):
     pkg = {"rcdom": "markup5ever_rcdom"}.get(crate, crate)
     dest = os.path.join(wt, crate, "tests", name + ".rs")
     env = {"CARGO_TARGET_DIR": os.path.join(wt, "target")}
+    feat = " --features encoding_rs" if (pkg == "tendril" and "encoding_rs" in open(demo).read()) else ""
     sh("git checkout -- . ", cwd=wt)
     made_dir = not os.path.isdir(os.path.dirname(dest))
     os.makedirs(os.path.dirname(dest), exist_ok=True)
     shutil.copy(demo, dest)
     res = {}
     try:
-        rc0, o0 = sh("cargo test --offline -p %s --test %s 2>&1 | tail -15" % (pkg, name), cwd=wt, env=env)
+        rc0, o0 = sh("cargo test --offline -p %s --test %s%s 2>&1 | tail -15" % (pkg, name, feat), cwd=wt, env=env)
         ok0 = "test result: ok" in o0
         rc, o = sh("git apply %s" % patch, cwd=wt)
         if rc != 0:
             print("patch does not apply:", o); return 2
-        rc1, o1 = sh("cargo test --offline -p %s --test %s 2>&1 | tail -15" % (pkg, name), cwd=wt, env=env)
+        rc1, o1 = sh("cargo test --offline -p %s --test %s%s 2>&1 | tail -15" % (pkg, name, feat), cwd=wt, env=env)
         fail1 = "test result: FAILED" in o1 or "panicked" in o1
         # the existing suite must still pass with the patch (compare the per-target result lines with the pristine ones)
         os.remove(dest)
